@@ -378,6 +378,8 @@ class AlignmentCollector:
             if not alignment_info.read_exons:
                 logger.warning("Read %s has no aligned exons" % read_id)
                 continue
+            # exons of the alignment as it is in the BAM file (aligned polyA tails are trimmed below)
+            aligned_exon_count = len(alignment_info.read_exons)
 
             alignment_info.add_polya_info(self.polya_finder, self.polya_fixer)
             if self.params.cage:
@@ -389,7 +391,7 @@ class AlignmentCollector:
                     alignment.mapping_quality < self.params.inconsistent_mapq_cutoff:
                 continue
             if read_assignment.assignment_type in [ReadAssignmentType.noninformative, ReadAssignmentType.intergenic] and \
-                    len(alignment_info.read_exons) <= 2 and \
+                    aligned_exon_count <= 2 and \
                     (alignment.is_secondary or alignment.mapping_quality < self.params.simple_alignments_mapq_cutoff):
                 # same rule as for regions without genes: whether an alignment that matches no gene is kept
                 # must not depend on the reads it happens to be processed with
